@@ -20,7 +20,7 @@ Conventions
   instantiates it with `Dec.roundTo p`).
 * `Cfg` records which of the defects found by C09 (known_findings/C09.json) are repaired in the
   code being modelled; `codeCfg` is the tree as it is now.  After the lead applies
-  proposed_fixes/F3.diff, F4.diff, F5.diff, F25.diff flip the corresponding flag in `codeCfg`.
+  proposed_fixes/F3.diff, F4.diff, F5.diff, F50.diff flip the corresponding flag in `codeCfg`.
 -/
 import RegionsVerif.Impl.Decimal
 
@@ -36,7 +36,7 @@ structure Cfg where
   includeInt : Bool
   /-- F5 repaired: the `global` line keeps the first region's key order (else: `set` order). -/
   orderedGlobal : Bool
-  /-- F25 repaired: the reader leaves the value of `text=` alone (else: `float(text)` if it parses). -/
+  /-- F50 repaired: the reader leaves the value of `text=` alone (else: `float(text)` if it parses). -/
   textVerbatim : Bool
 deriving DecidableEq, Repr
 
@@ -872,6 +872,12 @@ def geometry (pix : Bool) (shape : DShape) (ps : List ℚ) :
 def toRegionVisual (vis : Dict) : Dict :=
   vis.foldl (fun acc kv => AL.set acc (visualKey kv.1) kv.2) []
 
+/-- the `TextString` validator of the text region classes. -/
+def textIsStr : Option PyVal → Bool
+  | none => true
+  | some (.str _) => true
+  | some _ => false
+
 /-- `_make_region` for one (single-region) line. -/
 def makeRegion (fn : FName) (shape : DShape) (ps : List ℚ) (raw : Dict) : Except String Region :=
   match geometry (decide (fn = .image)) shape ps with
@@ -884,8 +890,10 @@ def makeRegion (fn : FName) (shape : DShape) (ps : List ℚ) (raw : Dict) : Exce
       let text : Option PyVal :=
         if rs = .text then some ((AL.get raw .text).getD (.str [])) else none
       let mta := if rs = .text then AL.pop (splitRaw raw).1 .text else (splitRaw raw).1
+      -- Text…Region(center, text): `text` must be a `str` (`TextString` descriptor)
+      if textIsStr text = false then .error "ValueError"
       -- RegionMeta(meta): unknown keys raise KeyError
-      if mta.any (fun kv => decide (kv.1 ∉ regionMetaKeys)) then .error "KeyError"
+      else if mta.any (fun kv => decide (kv.1 ∉ regionMetaKeys)) then .error "KeyError"
       else .ok ⟨cls, fn.frame, coords, nums, text, mta, toRegionVisual vis⟩
 
 /-! ### reader: lines (`read.py:_parse_raw_data`, `_parse_ds9`) -/
